@@ -187,6 +187,29 @@ func c11Case(ctx *genCtx, ts *tape.Set, dir string) *genResult {
 		did = world.MakeCollisions(w, ts.Fork("collide"), mt.Intn(3) > 0, mt.Intn(3) > 0)
 	}
 	conflicts, dups := w.Clashes()
+	if len(conflicts) > 0 && mt.Bool() {
+		// a hand-written, called function whose name is the first fresh name -autoname would try,
+		// declared and called only in the last file
+		name := conflicts[mt.Intn(len(conflicts))]
+		base := name
+		for _, c := range w.Calls {
+			if w.FuncName(c) == name {
+				base = w.PrefixOf(c.Plugin)
+			}
+		}
+		cand := base + "_"
+		if mt.Intn(3) == 0 {
+			cand = base + "_1"
+		}
+		if w.NFiles < 2 {
+			w.NFiles = 2
+			w.Unfmt = append(w.Unfmt, false)
+			w.LineDir = append(w.LineDir, "")
+		}
+		w.UserFuncs = append(w.UserFuncs, world.UserFunc{Name: cand, File: w.NFiles - 1,
+			Text: fmt.Sprintf("func %s(a, b complex64) complex64 { return a - b }\n\nvar _ = %s(1, 2)\n", cand, cand)})
+		res.probe("world.reserved_fresh_name_candidate")
+	}
 	files := w.Render()
 	writeWorld(base, files)
 	res.Sample = map[string]any{"files": userSources(files), "profile": profile, "conflicts": conflicts, "duplicates": dups, "injected": did, "earlier_version_generated_first": prior}
